@@ -73,15 +73,16 @@ pub fn decm_body<const N: usize>(t: u16) {
 /// not constant-folded and the writer content would otherwise be a 40-way
 /// merge, DESIGN.md §2).  `total` is the specified size of the record.
 pub fn reconcretize(data: &[u8], total: usize, t: u16, hidden: bool) -> [u8; MAXREC] {
-    if data.len() != total {
-        check!(false, "C06,C07: the encoder emits header plus payload of the specified size, nothing else");
-        return [0u8; MAXREC];
-    }
+    // No early return here: the result must be the constant skeleton on every
+    // path (a join with another array would make the header octets symbolic
+    // again), so out-of-range reads yield 0 and the size check reports them.
+    let at = |i: usize| if i < data.len() { data[i] } else { 0 };
+    check!(data.len() == total, "C06,C07: the encoder emits header plus payload of the specified size, nothing else");
     let o1: u8 = ((((total >> 8) & 3) as u8) << 6) | 1 | if hidden { 2 } else { 0 };
-    check!(data[0] == o1, "C06,C07: first AVP octet = high length bits, mandatory bit set, hidden bit only on hidden AVPs, reserved bits zero");
-    check!(data[1] == (total & 0xff) as u8, "C06,C07: the AVP's 10-bit length field equals the octets emitted for it");
-    check!(data[2] == 0 && data[3] == 0, "C06: vendor id zero");
-    check!(data[4] == (t >> 8) as u8 && data[5] == (t & 0xff) as u8, "C06,C16: the assigned attribute-type number is emitted");
+    check!(at(0) == o1, "C06,C07: first AVP octet = high length bits, mandatory bit set, hidden bit only on hidden AVPs, reserved bits zero");
+    check!(at(1) == (total & 0xff) as u8, "C06,C07: the AVP's 10-bit length field equals the octets emitted for it");
+    check!(at(2) == 0 && at(3) == 0, "C06: vendor id zero");
+    check!(at(4) == (t >> 8) as u8 && at(5) == (t & 0xff) as u8, "C06,C16: the assigned attribute-type number is emitted");
     let mut buf = [0u8; MAXREC];
     buf[0] = o1;
     buf[1] = (total & 0xff) as u8;
@@ -89,7 +90,7 @@ pub fn reconcretize(data: &[u8], total: usize, t: u16, hidden: bool) -> [u8; MAX
     buf[5] = (t & 0xff) as u8;
     let mut i = 6;
     while i < total {
-        buf[i] = data[i];
+        buf[i] = at(i);
         i += 1;
     }
     buf
